@@ -290,7 +290,9 @@ def set_item(ctx, fr, path, cont, key, val, node=None):
         ctx.safety(path, z3.And(idx < n, idx >= -n), "list index in range (store)", _where(node))
         i = simp(z3.If(idx < 0, n + idx, idx))
         ns = simp(z3.Concat(z3.Extract(seq, 0, i), z3.Unit(val.t), z3.Extract(seq, i + 1, n - i - 1)))
-        return Val(V.VList(ns), cont.ann, own=cont.own, deep=cont.deep and val.own != "borrow", src=cont.src)
+        nv = Val(V.VList(ns), cont.ann, own=cont.own, deep=cont.deep and val.own != "borrow", src=cont.src)
+        nv.root = cont.root
+        return nv
     if k == "VDict":
         has, get, keys = ctx.dict_parts(path, cont)
         nkeys = simp(z3.If(z3.Select(has, key.t), keys, z3.Concat(keys, z3.Unit(key.t))))
